@@ -2,6 +2,7 @@ package main
 
 import (
 	"go/ast"
+	"go/token"
 	"go/types"
 
 	"golang.org/x/tools/go/cfg"
@@ -184,6 +185,76 @@ func runC50(c *Ctx) {
 		c.Check(inCond, r5, fi.Name(), fi.Decl.Pos(), orStr(ifStr(!inCond, "MatchesPathFilter is called but its answer does not decide a branch"), "the matcher is evaluated in the skip condition, for every entry"))
 	}
 	c.Floor(r5, 1)
+
+	// The writers stop at io.EOF from the tree walker and report success. The walker must therefore never replace a
+	// real error by io.EOF: in plumbing/object and the archive package no statement assigns io.EOF to an error variable
+	// (or returns io.EOF) inside a branch taken because that variable is not nil.
+	const r6 = "walk-error-not-end-of-walk"
+	{
+		ioPkg := p.importedPkg("io")
+		var eof types.Object
+		if ioPkg != nil {
+			eof = ioPkg.Scope().Lookup("EOF")
+		}
+		nSites, nBad := 0, 0
+		for _, sp := range []string{objShort, ar} {
+			spk := p.Pkg(sp)
+			if spk == nil || eof == nil {
+				continue
+			}
+			sinfo := spk.TypesInfo
+			for _, fi := range p.FuncsIn(sp) {
+				if fi.Decl.Body == nil || p.isTestFile(fi.Decl.Pos()) {
+					continue
+				}
+				ast.Inspect(fi.Decl.Body, func(n ast.Node) bool {
+					ifs, ok := n.(*ast.IfStmt)
+					if !ok {
+						return true
+					}
+					be, ok := unparen(ifs.Cond).(*ast.BinaryExpr)
+					if !ok || be.Op != token.NEQ {
+						return true
+					}
+					var ev types.Object
+					if isNil(sinfo, be.Y) {
+						ev = objOf(sinfo, be.X)
+					} else if isNil(sinfo, be.X) {
+						ev = objOf(sinfo, be.Y)
+					}
+					if ev == nil || !types.Identical(ev.Type(), types.Universe.Lookup("error").Type()) {
+						return true
+					}
+					nSites++
+					for _, st := range ifs.Body.List {
+						bad := false
+						switch v := st.(type) {
+						case *ast.AssignStmt:
+							for i, l := range v.Lhs {
+								if objOf(sinfo, l) == ev && i < len(v.Rhs) && objOfSel(sinfo, v.Rhs[i]) == eof {
+									bad = true
+								}
+							}
+						case *ast.ReturnStmt:
+							if len(v.Results) > 0 && objOfSel(sinfo, v.Results[len(v.Results)-1]) == eof {
+								bad = true
+							}
+						}
+						if bad {
+							nBad++
+							c.Analysed(fi)
+							c.Violate(r6, fi.Name()+":"+ev.Name()+"=io.EOF", st.Pos(), "on the branch taken because `"+ev.Name()+"` is not nil the error is replaced by io.EOF: consumers of the walk (the archive writers, file iterators, the tree diff) take a tree with an unreadable subtree for a complete one and report success")
+						}
+					}
+					return true
+				})
+			}
+		}
+		if nBad == 0 {
+			c.Hold(r6, objShort+"+"+ar, 0, "none of the "+itoa(nSites)+" error branches in plumbing/object and the archive package replaces the error by io.EOF")
+		}
+	}
+	c.Floor(r6, 1)
 
 	const r2 = "prefix-entry"
 	for _, wn := range []string{"WriteTarArchive", "WriteZipArchive"} {
